@@ -137,7 +137,9 @@ def generate():
     f = find_func(k, "from_public_point", cls=VK)
     whole(f, "VerifyingKey.from_public_point", "cls, point, curve=NIST192p, hashfunc=sha1, validate_point=True", ["classmethod"],
           "self = cls(_error__please_use_generate=True)\n"
-          "if not isinstance(point, ellipticcurve.PointJacobi):\n    point = ellipticcurve.PointJacobi.from_affine(point)\n"
+          "if not isinstance(point, ellipticcurve.PointJacobi):\n"
+          "    if point == ellipticcurve.INFINITY:\n        raise MalformedPointError('Point at infinity is not a valid public point')\n"
+          "    point = ellipticcurve.PointJacobi.from_affine(point)\n"
           "self.curve = curve\nself.default_hashfunc = hashfunc\n"
           "try:\n    self.pubkey = ecdsa.Public_key(curve.generator, point, validate_point)\n"
           "except ecdsa.InvalidPointError:\n    raise MalformedPointError('Point does not lay on the curve')\n"
